@@ -259,3 +259,17 @@ func RowKey(r []Value) string {
 	}
 	return sb.String()
 }
+
+// FoldName lower-cases an SQL identifier the way SQLite does: ASCII letters only.
+func FoldName(s string) string {
+	b := []byte(s)
+	for i, c := range b {
+		if c >= 'A' && c <= 'Z' {
+			b[i] = c + 32
+		}
+	}
+	return string(b)
+}
+
+// SameName: two spellings of one SQL identifier (ASCII case-insensitive, as in SQLite).
+func SameName(a, b string) bool { return FoldName(a) == FoldName(b) }
